@@ -1,5 +1,7 @@
 import Tickit.Proof.XTermDrv
+import Tickit.Proof.XTermOut
 import Tickit.Gen.XTermFacts
+import Tickit.Gen.TermBuf
 /-
   C09 — xterm driver output has exactly the requested effect on a VT-conformant screen.
 
@@ -804,6 +806,18 @@ theorem ops_effect (fx : Fixes) (ops : List Op) (d : Drv) (vt : VTState) (hw : S
       have := ih { d with lines := l, cols := c } (vt.resize l c (freshGrid c)) hwf
         (fun h => hcaps h) rfl hpen hc2
       exact ⟨⟨⟨rfl, rfl, rfl, rfl, rfl⟩, this.1⟩, this.2⟩
+    | suspend =>
+      obtain ⟨hfx, hok⟩ := hc1
+      obtain ⟨bg', rv', hrun, hinv'⟩ := run_suspendBytes fx hfx d.caps d.pen hok vt hw.ground
+      have hwf : Spec.WF (run (suspendBytes fx d.caps d.pen) vt) := by
+        rw [hrun]; obtain ⟨g, r1, r2, c1, c2, m1, m2, m3, m4⟩ := hw; exact ⟨g, r1, r2, c1, c2, m1, m2, m3, m4⟩
+      have := ih d (run (suspendBytes fx d.caps d.pen) vt) hwf
+        (by rw [hrun]; exact hcaps) (by rw [hrun]; exact hcols) (by rw [hrun]; exact hinv') hc2
+      refine ⟨⟨⟨?_, rfl⟩, this.1⟩, this.2⟩
+      have e : (stepOp fx (d, vt) Op.suspend).2 = run (suspendBytes fx d.caps d.pen) vt := rfl
+      show (stepOp fx (d, vt) Op.suspend).2 =
+        { vt with bg := (stepOp fx (d, vt) Op.suspend).2.bg, rv := (stepOp fx (d, vt) Op.suspend).2.rv }
+      rw [e, hrun]
 
 /-- non-vacuity of the resize step of `ops_effect`: a scroll on the left half, the window grows from 6 to 9 columns,
     and the same rectangle (whose right edge is where the screen used to end) is scrolled again -/
@@ -816,6 +830,166 @@ example : AllOpsInContract Fixes.none (⟨⟨false, false, false⟩, 4, 6, PenCa
 
 /-- after start-up: `CSI m` has been sent and the cache is empty -/
 example : Spec.PenInv PenCache.empty (cexScreen 4 6) := ⟨rfl, fun _ h => by cases h⟩
+
+/-! ### Pause and resume: the terminal comes back as the driver takes it for -/
+
+/-- `tickit_term_pause` resets the rendition and touches nothing else: no cell, not the cursor, not the margins —
+    and not DECLRMM, the mode `start()` switched on and every `CSI Pl ; Pr s` of `scrollrect` relies on. -/
+theorem pause_effect (vt : VTState) (hw : Spec.WF vt) :
+    run pauseBytes vt = { vt with bg := -1, rv := false } := run_pauseBytes vt hw.ground
+
+/-- `tickit_term_pause` followed by `tickit_term_resume` — for every screen, every capability combination and every
+    cached pen: nothing but the rendering attributes is touched, they are the cached pen's again afterwards
+    (`Spec.PenInv`, what selects the erase strategy), the screen is still well formed and the probed DECSLRM
+    capability is still truthful (`Spec.CapsOK`: DECLRMM is as it was). -/
+theorem suspend_effect (fx : Fixes) (hfx : fx.resumeResendsPen = true) (caps : Caps) (cache : PenCache)
+    (hok : CacheOK cache) (vt : VTState) (hw : Spec.WF vt) (hcaps : Spec.CapsOK caps vt) :
+    (∃ bg' rv', run (suspendBytes fx caps cache) vt = { vt with bg := bg', rv := rv' }) ∧
+    Spec.PenInv cache (run (suspendBytes fx caps cache) vt) ∧ Spec.WF (run (suspendBytes fx caps cache) vt) ∧
+    Spec.CapsOK caps (run (suspendBytes fx caps cache) vt) ∧
+    (run (suspendBytes fx caps cache) vt).declrmm = vt.declrmm := by
+  obtain ⟨bg', rv', hrun, hinv⟩ := run_suspendBytes fx hfx caps cache hok vt hw.ground
+  rw [hrun]
+  obtain ⟨g, r1, r2, c1, c2, m1, m2, m3, m4⟩ := hw
+  exact ⟨⟨bg', rv', rfl⟩, hinv, ⟨g, r1, r2, c1, c2, m1, m2, m3, m4⟩, hcaps, rfl⟩
+
+/-- cached pen: background 3 + reverse video; the screen of the examples has DECLRMM set -/
+example := suspend_effect ⟨false, false, false, true⟩ rfl ⟨true, false, false⟩ ⟨true, some 3, some true⟩
+  (by intro v h; cases h; decide) exScreen exScreen_wf (fun _ => rfl)
+
+/-- THE CLAUSE about scrolling, after a pause and a resume: a scroll that reports success still moves exactly the
+    cells of the rectangle, blanks the vacated cells and touches nothing outside — the left/right margins it sets are
+    still margins, because the pause did not switch DECLRMM off behind the driver's back. -/
+theorem scroll_after_suspend (fx : Fixes) (hfx : fx.resumeResendsPen = true) (caps : Caps) (cache : PenCache)
+    (hok : CacheOK cache) (vt : VTState) (hw : Spec.WF vt) (hcaps : Spec.CapsOK caps vt)
+    (rect : Rect) (downward rightward : Int) (hin : ScrollInRange vt rect downward rightward)
+    (hone : fx.scrollGuard = false → ¬ OneColumnTrigger caps vt.cols rect downward)
+    (hret : (scrollrect fx caps vt.cols rect downward rightward).1 = true) :
+    Spec.ScrollOK rect downward rightward (run (suspendBytes fx caps cache) vt)
+      (run (scrollrect fx caps vt.cols rect downward rightward).2 (run (suspendBytes fx caps cache) vt)) := by
+  obtain ⟨⟨bg', rv', hrun⟩, _, hwf, hc, _⟩ := suspend_effect fx hfx caps cache hok vt hw hcaps
+  have hcols : (run (suspendBytes fx caps cache) vt).cols = vt.cols := by rw [hrun]
+  have hlines : (run (suspendBytes fx caps cache) vt).lines = vt.lines := by rw [hrun]
+  have := scroll_success_effect fx (run (suspendBytes fx caps cache) vt) hwf caps hc rect downward rightward
+    (by obtain ⟨a, b, c, d, e, f, g, h⟩ := hin; exact ⟨a, b, c, by rw [hlines]; exact d, e, by rw [hcols]; exact f, g, h⟩)
+    (by rw [hcols]; exact hone) (by rw [hcols]; exact hret)
+  rwa [hcols] at this
+
+/-- a partial-width rectangle (columns 1..3 of 6) scrolled down and left with DECSLRM, right after pause + resume -/
+example := scroll_after_suspend ⟨false, false, false, true⟩ rfl ⟨true, false, false⟩ ⟨true, some 3, some true⟩
+  (by intro v h; cases h; decide) exScreen exScreen_wf (fun _ => rfl) ⟨1, 1, 2, 3⟩ 1 (-1)
+  ⟨by decide, by decide, by decide, by decide, by decide, by decide, by decide, by decide⟩
+  (fun _ h => absurd h.2.1 (by decide)) (by decide)
+
+/-- Why the repair of `tickit_term_resume` (found by C12) is a hypothesis: in a tree without it the pen reset of the
+    pause is not undone, and the terminal's reverse video no longer agrees with the cached pen that `erasech` reads. -/
+theorem suspend_without_resend_counterexample :
+    ¬ ∀ (caps : Caps) (cache : PenCache) (vt : VTState), CacheOK cache → Spec.WF vt → Spec.PenInv cache vt →
+      Spec.PenInv cache (run (suspendBytes Fixes.none caps cache) vt) := by
+  intro h
+  have := (h ⟨true, false, false⟩ ⟨true, some 3, some true⟩ exScreen (by intro v h; cases h; decide) exScreen_wf
+    ⟨rfl, fun v hv => by cases hv; rfl⟩).1
+  revert this
+  decide +kernel
+
+/-- The cache of every history of in-range pens has an in-range background (the contract of `Op.suspend`). -/
+theorem cache_stays_ok (caps : Caps) (cache : PenCache) (pen : PenReq) (hc : CacheOK cache) (hok : Spec.PenOK pen) :
+    CacheOK (setpen caps cache pen).1 ∧ CacheOK (chpen caps cache pen).1 ∧ CacheOK PenCache.empty :=
+  ⟨cacheOK_setpen caps cache pen hok, cacheOK_chpen caps cache pen hc hok, cacheOK_empty⟩
+
+/-- non-vacuity of the `suspend` step of `ops_effect`: reverse-video pen, a partial-width scroll, pause + resume, the
+    same scroll again, then an erase under the re-sent pen -/
+example : AllOpsInContract ⟨false, false, false, true⟩ (⟨⟨true, false, false⟩, 4, 6, PenCache.empty⟩, { cexScreen 4 6 with declrmm := true })
+    [.setpen ⟨some 3, some true⟩, .req (.scroll ⟨1, 1, 2, 3⟩ 1 0), .suspend, .req (.scroll ⟨1, 1, 2, 3⟩ 1 0),
+     .req (.goto 0 0), .req (.erasech 2 .no)] := by
+  refine ⟨by intro v h; cases h; decide, ⟨⟨by decide, by decide, by decide, by decide, by decide, by decide, by decide, by decide⟩,
+    fun _ h => absurd h.2.1 (by decide)⟩, ⟨rfl, by intro v h; cases h; decide⟩, ?_⟩
+  refine ⟨⟨⟨by decide, by decide, by decide, by decide +kernel, by decide, by decide +kernel, by decide, by decide⟩,
+    fun _ h => absurd h.2.1 (by decide)⟩, ⟨Or.inr ⟨by decide, by decide +kernel⟩, Or.inr ⟨by decide, by decide +kernel⟩⟩, ?_⟩
+  exact ⟨⟨by decide +kernel, by decide, by decide +kernel, fun _ _ _ => by decide, fun _ _ h => absurd h (by decide +kernel)⟩, trivial⟩
+
+/-! ### Formatted output: `tickit_term_printf` / `tickit_term_vprintf` -/
+
+open Tickit.XTermOut in
+/-- `tickit_term_printf` hands the driver exactly the formatted result — whatever its length (0, 63, 64, 65, … bytes:
+    the two formatting passes of `tickit_term_vprintf` are sized by the first) and whatever the output buffer holds:
+    delivered ++ pending grows by exactly those bytes, and the call always returns. -/
+theorem printf_delivers (o : OutState) (hwf : TermBuf.WF o) (s : List UInt8) :
+    ∃ o', XTermOut.printf o s = .ok o' ∧ TermBuf.Ext o o' s := by
+  obtain ⟨o', h⟩ := TermBuf.termVprintf_total s hwf
+  exact ⟨o', h, TermBuf.termVprintf_ext hwf h⟩
+
+open Tickit.XTermOut in
+/-- `tickit_term_printf` of any printable UTF-8 text that fits in the row, of any length in bytes: the terminal
+    receives exactly the text (unbuffered terminal: at once), and the text has the effect of `print`: exactly the
+    cells under it change, the cursor ends after it (`print_utf8_effect`). -/
+theorem printf_effect (vt : VTState) (hw : Spec.WF vt) (hpw : vt.pendingWrap = false)
+    (cps : List Nat) (hp : ∀ cp ∈ cps, Spec.Printable cp) (hfit : vt.col + (Spec.textCells cps).length ≤ vt.cols) :
+    ∃ o', XTermOut.printf (fresh 0) (Spec.utf8 cps) = .ok o' ∧ delivered o' = Spec.utf8 cps ∧ o'.buf = [] ∧
+      run (delivered o') vt = Spec.placeCells (Spec.textCells cps) vt := by
+  have hwf : TermBuf.WF (fresh 0) := ⟨fun _ => rfl, fun h => absurd h (by decide)⟩
+  obtain ⟨o', h, e⟩ := printf_delivers (fresh 0) hwf (Spec.utf8 cps)
+  have hb : o'.buf = [] := e.wf.1 (by rw [e.bufLen]; rfl)
+  have hd : delivered o' = Spec.utf8 cps := by
+    have := e.eqn (Or.inl rfl)
+    rw [hb] at this
+    rw [delivered_eq]
+    simpa [fresh] using this
+  refine ⟨o', h, hd, hb, ?_⟩
+  rw [hd, run_utf8 cps hp vt hw.ground, foldl_putGlyph cps vt hpw hw.col_hi hfit]
+
+/-- a formatted result of exactly 64 bytes (the size of `write_vstrf`'s stack buffer) on an 80-column row: all 64
+    cells are written and the cursor ends on column 64 -/
+example := printf_effect (cexScreen 2 80) (by constructor <;> decide) rfl (List.replicate 64 0x41)
+  (by intro cp h; rw [List.eq_of_mem_replicate h]; decide) (by decide +kernel)
+
+/-! ### The output buffer: the terminal sees the driver's bytes in the order they were written -/
+
+open Tickit.XTermOut in
+/-- THE PROPERTY behind an output buffer of any size `n` (0 = none), for whole histories of drawing requests,
+    formatted prints, pen changes, pause + resume and flushes at any points, once the history ends with a flush:
+    the byte stream the OUTPUT FUNCTION has received — `write_str` copies every string into the buffer piecewise and
+    flushes it whenever it is full, a string longer than the whole buffer included — is, byte for byte and in order,
+    what the driver wrote; interpreted by the reference terminal it therefore gives every request of the history
+    exactly its requested effect (`ops_effect`), whatever was still pending in the buffer when a long text followed.
+    (A resize while requested output may still be buffered is outside the contract: flush first.) -/
+theorem buffered_history_effect (fx : Fixes) (n : Nat) (ts : List TOp) (hnr : ∀ t ∈ ts, ¬ IsResize t)
+    (d : Drv) (vt : VTState) (hw : Spec.WF vt) (hcaps : Spec.CapsOK d.caps vt) (hcols : d.cols = vt.cols)
+    (hpen : Spec.PenInv d.pen vt) (hc : AllOpsInContract fx (d, vt) (ts.flatMap plain)) :
+    ∃ s', runT fx ⟨d, fresh n⟩ (ts ++ [.flush]) = some s' ∧ s'.o.buf = [] ∧
+      delivered s'.o = tWritten fx d ts ∧
+      run (delivered s'.o) vt = (runOps fx (d, vt) (ts.flatMap plain)).2 ∧
+      AllOpsOK fx (d, vt) (ts.flatMap plain) ∧ Spec.WF (run (delivered s'.o) vt) := by
+  have hwf : TermBuf.WF (fresh n) := ⟨fun _ => rfl, fun h => h⟩
+  have hm : ModeOK (fresh n) := ⟨rfl, rfl⟩
+  obtain ⟨s1, h1⟩ := runT_total fx ts ⟨d, fresh n⟩ hwf hm
+  obtain ⟨e1, _⟩ := runT_ext fx ts ⟨d, fresh n⟩ s1 hwf hm h1
+  have hrun : runT fx ⟨d, fresh n⟩ (ts ++ [.flush]) = some { s1 with o := TermBuf.flush s1.o } := by
+    have happ : ∀ (ts : List TOp) (s s1 : TS), runT fx s ts = some s1 →
+        runT fx s (ts ++ [.flush]) = some { s1 with o := TermBuf.flush s1.o } := by
+      intro ts
+      induction ts with
+      | nil => intro s s1 h; injection h with h; subst h; rfl
+      | cons t ts ih =>
+        intro s s1 h
+        simp only [runT, List.cons_append] at h ⊢
+        split at h
+        · rename_i s2 h2; exact ih s2 s1 h
+        · cases h
+    exact happ ts _ s1 h1
+  have e2 := TermBuf.flush_ext_wf e1.wf
+  have e := TermBuf.Ext.trans e1 e2
+  have hb : (TermBuf.flush s1.o).buf = [] := TermBuf.flush_buf s1.o
+  have hd : delivered (TermBuf.flush s1.o) = tWritten fx d ts := by
+    have := e.eqn (Or.inl rfl)
+    rw [hb] at this
+    rw [delivered_eq]
+    simpa [fresh] using this
+  have hops := ops_effect fx (ts.flatMap plain) d vt hw hcaps hcols hpen hc
+  have hscreen := runOps_written fx ts d vt hnr
+  refine ⟨_, hrun, hb, hd, ?_, hops.1, ?_⟩
+  · rw [hd, hscreen]
+  · rw [hd, ← hscreen]; exact hops.2.1
 
 /-! ### The start-up probe: where the hypothesis `Spec.CapsOK` of the scroll theorems comes from -/
 
@@ -920,8 +1094,8 @@ theorem erase_last_col_counterexample (fx : Fixes) : ¬ C09_erase_full fx := by
     (by decide)
   have h2 := (h1.2.2.2.1 rfl).1
   revert h2
-  rcases fx with ⟨a, b, c⟩
-  cases a <;> cases b <;> cases c <;> decide +kernel
+  rcases fx with ⟨a, b, c, d⟩
+  cases a <;> cases b <;> cases c <;> cases d <;> decide +kernel
 
 /-! ### Tie to the source: constants and format strings regenerated from `termdriver-xterm.c` on every run -/
 
@@ -973,5 +1147,13 @@ theorem erasech_clear_printf :
     (∀ n, csi (showInt n ++ [0x58]) = fmt (erasech_formats.getD 1 []) [n]) ∧
     clear = fmt (clear_formats.getD 0 []) [] := by
   simp [erasech_formats, clear_formats, clear, fmt, csi]
+
+open Tickit.Gen.TermBuf in
+/-- The bytes of a pause are the ones in the source: `teardown()` (which is both `.stop` and `.pause` of the driver's
+    vtable) ends with the pen-reset literal the extractor of the C11 engine reads from `termdriver-xterm.c`, and
+    `tickit_term_pause` ends with a flush; nothing in `teardown()` / `resume()` mentions DECLRMM. -/
+theorem pauseBytes_from_source :
+    pauseBytes = teardown_pen_reset ∧ pause_is_teardown = true ∧ stop_is_teardown = true ∧ term_pause_flushes = true := by
+  decide
 
 end Tickit.Props.C09
